@@ -197,6 +197,7 @@ impl<'a> Judge<'a> {
     /// Returns the outcome signature.
     fn judge(&mut self, cap: usize, term: &str, steps: &[Step], replay: Vec<(&str, String)>, embodiment: &str) -> String {
         let mut ck = FrameChecker::new(cap, term.as_bytes());
+        ck.tolerate_f4 = self.prop == "C07";
         let mut sig = String::new();
         let mut nontrivial = false;
         self.rep.eval();
@@ -670,6 +671,10 @@ fn mode_spy(j: &mut Judge) {
 struct Counting<S: MetricSink> {
     inner: S,
     done: Arc<AtomicU64>,
+    /// while set, an emit that has been entered waits before it reaches the wrapped buffered sink (stands for
+    /// "the queue's thread was descheduled between taking the metric and handing it over")
+    hold: Arc<std::sync::atomic::AtomicBool>,
+    entered: Arc<AtomicU64>,
 }
 
 impl<S: MetricSink> MetricSink for Counting<S> {
@@ -682,6 +687,11 @@ impl<S: MetricSink> MetricSink for Counting<S> {
             }
         }
         let _d = Done(&self.done);
+        self.entered.fetch_add(1, Ordering::SeqCst);
+        let t0 = std::time::Instant::now();
+        while self.hold.load(Ordering::SeqCst) && t0.elapsed().as_secs() < 90 {
+            std::thread::yield_now();
+        }
         self.inner.emit(m)
     }
     fn flush(&self) -> io::Result<()> {
@@ -704,7 +714,9 @@ fn mode_delegate(j: &mut Judge) {
         let through_queue = r.chance(1, 2);
         let (rx, spy) = if default_cap { BufferedSpyMetricSink::new() } else { BufferedSpyMetricSink::with_capacity(None, Some(cap)) };
         let done = Arc::new(AtomicU64::new(0));
-        let counting = Counting { inner: spy, done: done.clone() };
+        let hold = Arc::new(std::sync::atomic::AtomicBool::new(false));
+        let entered = Arc::new(AtomicU64::new(0));
+        let counting = Counting { inner: spy, done: done.clone(), hold: hold.clone(), entered: entered.clone() };
         // every way of building the queuing wrapper must delegate flush (and must not lose it behind an error handler)
         let qvariant = r.below(4);
         let client = if through_queue {
@@ -750,7 +762,35 @@ fn mode_delegate(j: &mut Judge) {
                 let v = r.u64_any_width();
                 let klen = r.range(1, (cap / 2).max(2) as u64) as usize;
                 let key = String::from_utf8(unique_metric(k, klen)).unwrap().replace('.', "_");
+                // sometimes the flush lands while the queue's thread holds a metric it has taken but not handed over yet
+                let racy = through_queue && r.chance(1, 3);
+                if racy {
+                    hold.store(true, Ordering::SeqCst);
+                }
                 let res = panics::guard(|| client.gauge(&key, v));
+                if racy {
+                    let t0 = std::time::Instant::now();
+                    while entered.load(Ordering::SeqCst) < sent + 1 && t0.elapsed().as_secs() < 60 {
+                        std::thread::yield_now();
+                    }
+                    if entered.load(Ordering::SeqCst) >= sent + 1 {
+                        let nfl = r.range(1, 2);
+                        for _ in 0..nfl {
+                            let fres = match panics::guard(|| client.flush()) {
+                                Ok(Ok(())) => Res::OkUnit,
+                                Ok(Err(_)) => Res::Err(None),
+                                Err(p) => Res::Panicked(p),
+                            };
+                            let mut attempts = Vec::new();
+                            while let Ok(b) = rx.try_recv() {
+                                attempts.push(Attempt { bytes: Some(b), out: AOut::Ok });
+                            }
+                            steps.push(Step { op: Op::Flush, attempts, res: fres });
+                        }
+                        j.rep.obs("flushes_while_the_queue_thread_held_a_taken_metric", nfl);
+                    }
+                    hold.store(false, Ordering::SeqCst);
+                }
                 match res {
                     Ok(Ok(m)) => {
                         sent += 1;
